@@ -123,6 +123,9 @@ func genHistory(r *rand.Rand, tier string, o histOpts) *World {
 	if o.migration && chance(r, 0.5) {
 		w.EDS[0].OldDS = "legacy"
 		w.Foreign = chance(r, 0.7)
+		if o.faults && chance(r, 0.5) {
+			w.Cfg.TargetCall = " get DaemonSet "
+		}
 	} else if o.twoEDS {
 		w.Foreign = chance(r, 0.3)
 	}
